@@ -80,6 +80,15 @@ def parseOp (w : String) : Option (Op Dict) :=
     | ("sm", some h) => (parseHex h).map Op.setMessage
     | _ => none
 
+/-- `hr=<int>` / `hs=` / `ht=` / `hv=`: assignment of recipient / sender / econet type / econet version -/
+def parseHOp (w : String) : Option (HOp Dict) :=
+  match splitFirst w '=' with
+  | ("hr", some v) => v.toInt?.map (HOp.hdr .rcpt)
+  | ("hs", some v) => v.toInt?.map (HOp.hdr .sender)
+  | ("ht", some v) => v.toInt?.map (HOp.hdr .etype)
+  | ("hv", some v) => v.toInt?.map (HOp.hdr .ever)
+  | _ => (parseOp w).map HOp.op
+
 def showObjErr : ObjErr → String
   | .build .frameData => "E:frameData"
   | .build .value => "E:value"
@@ -129,8 +138,8 @@ def objOps : List String → Option String
     let rc ← rc.toInt?; let sd ← sd.toInt?; let et ← et.toInt?; let ev ← ev.toInt?
     let msg ← if msg = "_" then some none else (parseHex msg).map some
     let data ← if data = "_" then some none else (parseDict data).map some
-    let ops ← ops.mapM parseOp
-    let outs := (run (codecOf sw code) (construct code rc sd et ev msg data) ops).2
+    let ops ← ops.mapM parseHOp
+    let outs := (runH (codecOf sw code) (construct code rc sd et ev msg data) ops).2
     pure (if outs.isEmpty then "-" else String.intercalate " " (outs.map showObjOut))
   | ["fw", "write", b, d] => do
     let d ← parseExc d
